@@ -212,8 +212,21 @@ def suites(tier, seed):
                 for x in it.get("items", []):
                     for ex in x.get("examples", []):
                         ex["tags"] = []
+            inherited = None
+            if i % 4 == 3:
+                # a feature or its rules tagged @setup / @teardown: their scenarios only inherit the tag (rendered as t7, renamed below)
+                inherited = rnd.choice(["setup", "teardown"])
+                if rnd.random() < 0.5 or not any(it["kind"] == "rule" for it in f["items"]):
+                    f["tags"] = ["t7"]
+                else:
+                    for it in f["items"]:
+                        if it["kind"] == "rule":
+                            it["tags"] = ["t7"]
             runprog.normalize_program({"features": [f]})
             text, info = c10.render_doc(f, rnd)
+            if inherited:
+                assert "@t7" in text
+                text = text.replace("@t7", "@" + inherited)
             # feature file names as projects write them: plain, with a '#' (issue numbers), with a blank
             fname = ["F%d.feature", "F%d.feature", "F%d.feature", "issue#%d.feature", "F%d.feature", "issue %d #x.feature"][i % 6] % f["id"]
             fnames[f["id"]] = fname
